@@ -104,3 +104,22 @@ Definition C05_full : Prop :=
         exists k, (if torn then synced_recs w0 else 0) <= k /\
                   effect zero_snap (firstn (N.to_nat k) (lrecs (ops ++ [o]))) = Some (st, ents)
     end.
+
+(* ---------- several segments: the crc is chained from one segment into the next ---------- *)
+Fixpoint encode_segs (crc : N) (segs : list (list (N * option bytes))) : list bytes :=
+  match segs with
+  | [] => []
+  | recs :: r => fst (encode_all crc recs) :: encode_segs (snd (encode_all crc recs)) r
+  end.
+Fixpoint stored_segs (crc : N) (segs : list (list (N * option bytes))) : list wrecord :=
+  match segs with
+  | [] => []
+  | recs :: r => stored crc recs ++ stored_segs (snd (encode_all crc recs)) r
+  end.
+(* the tail keeps its preallocated zeros *)
+Fixpoint app_last (l : list bytes) (t : bytes) : list bytes :=
+  match l with
+  | [] => []
+  | [x] => [x ++ t]
+  | x :: r => x :: app_last r t
+  end.
